@@ -184,9 +184,11 @@ def probe_names(case):
     return sorted(names)
 
 
-def run_cases(cases, nworkers=8, hashseed0=0):
+def run_cases(cases, nworkers=8, hashseed0=0, servers=None):
     """Materialise, build with the real pytask, clean up. Returns {case id: observation}."""
-    servers = [Server(hashseed0 + i) for i in range(min(nworkers, max(1, len(cases))))]
+    own = servers is None
+    if own:
+        servers = [Server(hashseed0 + i) for i in range(min(nworkers, max(1, len(cases))))]
     obs = {}
 
     def one(ic):
@@ -210,8 +212,9 @@ def run_cases(cases, nworkers=8, hashseed0=0):
             for cid, res in ex.map(one, list(enumerate(cases))):
                 obs[cid] = res
     finally:
-        for s in servers:
-            s.close()
+        if own:
+            for s in servers:
+                s.close()
     return obs
 
 
@@ -765,6 +768,7 @@ def random_case(rng, cid, focus=None):
         for pr in files.values():
             if pr is not None:
                 pr["imports"] = []
+        paths = [p for p in paths if p != "helper_a.py"] or [""]
     return {"id": cid, "dirs": dirs, "files": files, "paths": paths, "ignore": ignore, "task_files": task_files}
 
 
@@ -907,26 +911,36 @@ def evaluate(ctx, cases, obs):
         compare_model(ctx, case, ob)
 
 
-def shrink_violations(ctx, start):
-    """Reduce fresh (unclassified) failing cases: drop files / statements / paths while the oracle still fails."""
-    for v in ctx.violations[start:]:
-        if v["finding"] is not None or "case" not in v["replay"]:
-            continue
-        case = v["replay"]["case"]
-        for _ in range(3):
-            changed = False
-            for cand in shrink_candidates(case):
-                probe = common.Ctx(ctx.prop, ctx.tier, ctx.seed)
-                ob = run_cases([cand], 1)[cand["id"]]
-                judge(probe, cand, ob)
-                if probe.violations and probe.violations[0]["finding"] is None:
-                    case = cand
-                    v["what"] = probe.violations[0]["what"]
-                    changed = True
-                    break
-            if not changed:
+def shrink_violations(ctx, start, budget=60):
+    """Reduce the first fresh (unclassified) failing case: drop files / statements / paths while the oracle still
+    fails with an unclassified violation. Bounded number of real builds."""
+    fresh = [v for v in ctx.violations[start:] if v["finding"] is None and "case" in v["replay"]]
+    if not fresh:
+        return
+    v = fresh[0]
+    case = v["replay"]["case"]
+    used = 0
+    changed = True
+    servers = [Server(ctx.seed * 16)]
+    while changed and used < budget:
+        changed = False
+        for cand in shrink_candidates(case):
+            if used >= budget:
                 break
-        v["replay"]["case"] = case
+            used += 1
+            probe = common.Ctx(ctx.prop, ctx.tier, ctx.seed)
+            ob = run_cases([cand], 1, servers=servers)[cand["id"]]
+            judge(probe, cand, ob)
+            if ob.get("exit") in (0, 3) and probe.violations and all(x["finding"] is None for x in probe.violations):
+                case = cand
+                v["what"] = probe.violations[0]["what"]
+                changed = True
+                break
+    servers[0].close()
+    v["replay"]["case"] = case
+    # report the minimised case first
+    ctx.violations.remove(v)
+    ctx.violations.insert(0, v)
 
 
 def shrink_candidates(case):
@@ -934,7 +948,9 @@ def shrink_candidates(case):
     for f in files:
         c = json.loads(json.dumps(case))
         del c["files"][f]
-        yield c
+        c["paths"] = [p for p in c["paths"] if p != f]
+        if c["paths"]:
+            yield c
     for f in files:
         prog = case["files"][f]
         if prog is None:
